@@ -93,6 +93,53 @@ Definition pstat (q : prep) (v : stat) : prep :=
 Definition report_entry_ok (r : list hop) (p : prep) : Prop :=
   exists q, send_rec r (p_ctr p) = Some q /\ p = pstat q (spec_status r (p_ctr p)).
 
+(* ---- the complete specification of buildReport ---- *)
+Definition fa_arrived (a : fack) : bool := let '(_, x, _, _) := a in x.
+
+(* an acknowledgement "arrived" designating packet c moves the high mark when c is not reported yet *)
+Definition bump (nx : Z) (hi : option Z) (c : option Z) (arrived : bool) : option Z :=
+  match c with
+  | Some c => if (nx <=? c) && arrived then Some (match hi with Some h => Z.max h c | None => c end) else hi
+  | None => hi
+  end.
+
+(* (cursor, high mark): every packet below the cursor has been reported; high mark = the
+   highest packet acknowledged as arrived while not yet reported (None: none so far) *)
+Fixpoint spec_cursor (r : list hop) : Z * option Z :=
+  match r with
+  | [] => (0, None)
+  | HAdd _ _ _ _ _ _ :: t => spec_cursor t
+  | HFbTw a :: t => let '(nx, hi) := spec_cursor t in (nx, bump nx hi (latest_tw t (fa_seq a)) (fa_arrived a))
+  | HFbCc ssrc a :: t => let '(nx, hi) := spec_cursor t in (nx, bump nx hi (latest_cc t ssrc (fa_seq a)) (fa_arrived a))
+  | HReport :: t =>
+      let '(nx, hi) := spec_cursor t in
+      match hi with
+      | Some h => if nx <=? h then (h + 1, hi) else (nx, hi)
+      | None => (nx, hi)
+      end
+  end.
+
+Definition spec_entry (r : list hop) (c : Z) : list prep :=
+  match send_rec r c with Some q => [pstat q (spec_status r c)] | None => [] end.
+
+(* what buildReport must return after the calls r: every packet from the cursor to the
+   high mark, each exactly once, in send order, with its latest status *)
+Definition spec_report (r : list hop) : list prep :=
+  let '(nx, hi) := spec_cursor r in
+  match hi with
+  | Some h => if nx <=? h then flat_map (spec_entry r) (zrange nx (Z.to_nat (h - nx + 1))) else []
+  | None => []
+  end.
+
+Definition spec_out (r : list hop) (o : hop) : list prep :=
+  match o with HReport => spec_report r | _ => [] end.
+
+Fixpoint spec_run (r : list hop) (evs : list hop) : list (list prep) :=
+  match evs with
+  | [] => []
+  | o :: evs' => spec_out r o :: spec_run (o :: r) evs'
+  end.
+
 (* ---- the interceptor's operations as primitive calls ---- *)
 Section Flatten.
   Variable reft32 : Z -> Z -> Z.
